@@ -148,7 +148,17 @@ theorem numberEnd_bounds (inp : Input) (p1 : Nat) (h : p1 ≤ inp.size) :
     have hq := hf.2
     have h2 := scanWhile_bounds inp isDigit (inp.size + 1) (scanWhile inp isDigit (inp.size + 1) p1 + 1) (by omega)
     split
-    · simp; omega
+    · -- exponent directly after the integer part: optional sign, digits
+      simp only
+      generalize hq1 : scanWhile inp isDigit (inp.size + 1) p1 + 1 = q1 at *
+      have e1 : q1 ≤ (if ((byteAt inp q1 == 45 || byteAt inp q1 == 43) && decide (q1 < inp.size)) = true then q1 + 1 else q1) ∧
+          (if ((byteAt inp q1 == 45 || byteAt inp q1 == 43) && decide (q1 < inp.size)) = true then q1 + 1 else q1) ≤ inp.size := by
+        split
+        · rename_i hc; simp at hc; omega
+        · omega
+      generalize (if ((byteAt inp q1 == 45 || byteAt inp q1 == 43) && decide (q1 < inp.size)) = true then q1 + 1 else q1) = q1' at *
+      have h3 := scanWhile_bounds inp isDigit (inp.size + 1) q1' e1.2
+      omega
     · simp only
       generalize hq2 : scanWhile inp isDigit (inp.size + 1) (scanWhile inp isDigit (inp.size + 1) p1 + 1) = q2 at *
       have e3 : q2 ≤ (if ((byteAt inp q2 == 101 || byteAt inp q2 == 69) && decide (q2 < inp.size)) = true then q2 + 1 else q2) ∧
